@@ -750,6 +750,78 @@ def _origin_calls(b, l, depth=8):
     return out
 
 
+def _positive(b, o, depth=8, seen=None):
+    """is the usize operand certainly >= 1?  constants, x + c (c >= 1), and such values carried through tuples / Some(..) payloads
+    (a helper returning Some((ch, consumed)))"""
+    from flow import const_val, defs_of
+    if seen is None:
+        seen = set()
+    if depth == 0:
+        return False
+    if not is_local_op(o):
+        v = const_val(o)
+        m = re.match(r'^(\d+)', str(v)) if v is not None else None
+        return bool(m) and int(m.group(1)) >= 1
+
+    def from_defs(l, proj):
+        """value of local l projected by proj (list of tuple-field / Some-payload steps)"""
+        key = (l, tuple(proj))
+        if key in seen:
+            return True
+        seen.add(key)
+        ds = defs_of(b, l)
+        if not ds:
+            return False
+        res = []
+        for q, st in ds:
+            if st['k'] != 'assign':
+                if st['k'] == 'call' and call_matches(st, r'FromResidual.*::from_residual$') and proj[:1] in (['as Some'], ['as Ok'], ['as Continue']):
+                    continue        # `?` produced None / Err: the payload is only read on the other path
+                if st['k'] == 'call' and proj and call_matches(st, r'Option::<T>::(and_then|map)$') and len(st['args']) >= 2:
+                    # the payload is what the closure returns
+                    P_ = getattr(b, 'program', None)
+                    ok_c = False
+                    for o_ in origins(b, st['args'][1]):
+                        if o_[0] not in ('param', 'const', 'place') and o_[1].get('k') == 'assign' and o_[1]['rv']['k'] == 'agg' and o_[1]['rv'].get('ak') == 'closure' and P_ is not None:
+                            cb = P_.bodies.get(o_[1]['rv'].get('fn'))
+                            if cb is not None:
+                                pr = list(proj) if call_matches(st, r'and_then$') else (list(proj[2:]) if proj[:2] == ['as Some', '.Option.0'] else None)
+                                if pr is not None:
+                                    ok_c = _positive(cb, {'l': 0, 'p': pr}, depth - 1)
+                    res.append(ok_c)
+                    continue
+                if st['k'] == 'call' and not proj:
+                    return False
+                if st['k'] == 'call' and call_matches(st, r'Try>::branch$') and st['args'] and is_local_op(st['args'][0]):
+                    res.append(from_defs(st['args'][0]['l'], [p for p in proj if p not in ('as Continue', '.ControlFlow.0')] if proj[:1] != ['as Continue'] else ['as Some', '.Option.0'] + proj[2:]))
+                    continue
+                return False
+            rv = st['rv']
+            if rv['k'] == 'use' and is_local_op(rv['o']):
+                res.append(from_defs(rv['o']['l'], list(rv['o']['p']) + proj))
+            elif rv['k'] == 'use':
+                res.append(not proj and _positive(b, rv['o'], depth - 1, seen))
+            elif rv['k'] == 'agg' and rv.get('var') in ('None', 'Break'):
+                continue            # the payload is only read on the Some path
+            elif rv['k'] == 'agg' and rv.get('var') in ('Some', 'Continue', 'Ok') and proj[:2] in (['as Some', '.Option.0'], ['as Continue', '.ControlFlow.0'], ['as Ok', '.Result.0']):
+                o2 = rv['ops'][0]
+                rest = proj[2:]
+                res.append(from_defs(o2['l'], list(o2['p']) + rest) if is_local_op(o2) else (not rest and _positive(b, o2, depth - 1, seen)))
+            elif rv['k'] == 'agg' and rv.get('ak') == 'tuple' and proj and re.match(r'^\.\d+$', proj[0]):
+                idx = int(proj[0][1:])
+                if idx >= len(rv['ops']):
+                    return False
+                o2 = rv['ops'][idx]
+                rest = proj[1:]
+                res.append(from_defs(o2['l'], list(o2['p']) + rest) if is_local_op(o2) else (not rest and _positive(b, o2, depth - 1, seen)))
+            elif rv['k'] == 'bin' and 'Add' in rv['op'] and (not proj or proj == ['.0']):
+                res.append(any(_positive(b, x, depth - 1, seen) for x in (rv['a'], rv['b'])))
+            else:
+                return False
+        return bool(res) and all(res)
+    return from_defs(o['l'], list(o['p']))
+
+
 def _range_from_advances(b, rng):
     """is the start of this RangeFrom certainly >= 1?  (unknown shapes count as advancing: only the provably-maybe-zero case is excluded)"""
     from flow import const_val, defs_of
@@ -765,6 +837,8 @@ def _range_from_advances(b, rng):
             if v is not None:
                 m = re.match(r'^(\d+)', str(v))
                 return bool(m) and int(m.group(1)) >= 1
+            if is_local_op(start) and _positive(b, start):
+                return True
             for o2 in origins(b, start) if is_local_op(start) else []:
                 if o2[0] == 'place':
                     # the .0 of a checked addition
